@@ -59,7 +59,7 @@ def main() -> int:
             if with_suite:
                 start = time.time()
                 rc, out = run(
-                    "/venv/bin/python -m pytest -q -p no:cacheprovider --timeout=3000 -n 6 dev/tests",
+                    "/venv/bin/python -m pytest -q -p no:cacheprovider --timeout=9000 -n 6 dev/tests",
                     cwd=clone,
                     timeout=4 * 3600,
                 )
